@@ -65,6 +65,47 @@ class C16(Prop):
                    "REPAIRED code (is_finished asked at the top of the driver loop, DESIGN §7 finding 18)"]
     modelled_not_verified = "all Rust code"
 
+    # translator tie: is_finished() of every translated observer, generated from the current source, is the
+    # model's `finished` (GenTie/Fin/*.lean)
+    tie_modules = {
+        "RxModel.GenTie.Fin.Map": ['map'],
+        "RxModel.GenTie.Fin.MapTo": ['mapto'],
+        "RxModel.GenTie.Fin.Filter": ['filter'],
+        "RxModel.GenTie.Fin.FilterMap": ['filtermap'],
+        "RxModel.GenTie.Fin.Tap": ['tap'],
+        "RxModel.GenTie.Fin.OnErrorMap": ['onerrmap'],
+        "RxModel.GenTie.Fin.OnComplete": [],
+        "RxModel.GenTie.Fin.OnError": [],
+        "RxModel.GenTie.Fin.Take": ['take', 'first', 'elementat'],
+        "RxModel.GenTie.Fin.TakeWhile": ['takewhile', 'takewhilei'],
+        "RxModel.GenTie.Fin.Skip": ['skip'],
+        "RxModel.GenTie.Fin.SkipWhile": ['skipwhile'],
+        "RxModel.GenTie.Fin.TakeLast": ['takelast'],
+        "RxModel.GenTie.Fin.SkipLast": ['skiplast'],
+        "RxModel.GenTie.Fin.Last": ['last'],
+        "RxModel.GenTie.Fin.DefaultIfEmpty": ['dflt'],
+        "RxModel.GenTie.Fin.Scan": ['scan'],
+        "RxModel.GenTie.Fin.Distinct": ['distinct', 'distinctkey', 'duc', 'dukc'],
+        "RxModel.GenTie.Fin.Pairwise": ['pairwise'],
+        "RxModel.GenTie.Fin.Buffer": ['bufcount'],
+        "RxModel.GenTie.Fin.Contains": ['contains'],
+        "RxModel.GenTie.Fin.Collect": ['collect'],
+        "RxModel.GenTie.Fin.Merge": ['merge'],
+        "RxModel.GenTie.Fin.MergeThreads": ['merge'],
+        "RxModel.GenTie.Fin.Zip": ['zip'],
+        "RxModel.GenTie.Fin.ZipThreads": ['zip'],
+        "RxModel.GenTie.Fin.CombineLatest": ['combine'],
+        "RxModel.GenTie.Fin.CombineLatestThreads": ['combine'],
+        "RxModel.GenTie.Fin.WithLatestFrom": ['withlatest'],
+        "RxModel.GenTie.Fin.WithLatestFromThreads": ['withlatest'],
+        "RxModel.GenTie.Fin.TakeUntil": ['takeuntil'],
+        "RxModel.GenTie.Fin.TakeUntilThreads": ['takeuntil'],
+        "RxModel.GenTie.Fin.SkipUntil": ['skipuntil'],
+        "RxModel.GenTie.Fin.SkipUntilThreads": ['skipuntil'],
+        "RxModel.GenTie.Fin.Sample": ['sample'],
+        "RxModel.GenTie.Fin.SampleThreads": ['sample'],
+    }
+
     def cases(self, tier, seed):
         rng = random.Random(seed + 16)
         out = []
